@@ -74,6 +74,10 @@ fn main() {
                 let (c, e) = slices::sess::c01_cases(&mut rng, &tier);
                 (c, e, "state-aware random walks over the host protocol (submit/continue/reply/break/replace/seed) mixing generated programs, token soup, malformed text, a pool of boundary lines (u64 extremes, huge subscripts, 20 subscripts, big seeds) and nesting 30..3000 deep; after every call: output, state, full snapshot, caret rendering of every error; non-trivial = at least three kinds of event".into())
             }
+            "walk" => {
+                let (c, e) = slices::sess::walk_cases(&mut rng, &tier);
+                (c, e, "general state-aware random walks over the host protocol: statements of every kind (FOR/NEXT/GOSUB/RETURN/GOTO/IF-ELSE/DATA/READ/RESTORE/DIM/DEF/FN calls/INPUT/STOP/END/commands/array cells/RND), alone, numbered or several per line, edits and deletions, breaks, replies, inspections at breakpoints; after every call: output, state, full snapshot, caret rendering; non-trivial = at least three kinds of event".into())
+            }
             "c16" => {
                 let (c, e) = slices::sess::c16_cases(&mut rng, &tier);
                 (c, e, "targeted cap / re-entry / typing programs under two flag settings plus random walks, full state snapshot after every host call; non-trivial = at least three kinds of event".into())
